@@ -6,4 +6,383 @@ import MultiProofs.ElemOrder
 
 namespace Multi
 
+variable {α : Type}
+
+theorem Mem.write_same (m : Mem α) (a : Int) (x : α) : (m.write a x) a = x := by simp [Mem.write]
+theorem Mem.write_other (m : Mem α) {a b : Int} (x : α) (h : b ≠ a) : (m.write a x) b = m b := by simp [Mem.write, h]
+theorem Mem.write_self (m : Mem α) (a : Int) : m.write a (m a) = m := by
+  funext b; simp only [Mem.write]; split
+  · rename_i h; rw [h]
+  · rfl
+
+/-! ### sequential copy over a list of (destination, source) address pairs -/
+
+def copyList : List (Int × Int) → Mem α → Mem α
+  | [], m => m
+  | p :: ps, m => copyList ps (m.write p.1 (m p.2))
+
+theorem copyN_eq (n : Nat) (s d : ElemIt) (m : Mem α) :
+    ElemIt.copyN n s d m = copyList ((ElemIt.addrs n d).zip (ElemIt.addrs n s)) m := by
+  induction n generalizing s d m with
+  | zero => rfl
+  | succ n ih => simp only [ElemIt.copyN, ElemIt.addrs, List.zip_cons_cons, copyList, ih]
+
+theorem copyList_not_mem (ps : List (Int × Int)) (m : Mem α) (a : Int) (h : a ∉ ps.map Prod.fst) :
+    copyList ps m a = m a := by
+  induction ps generalizing m with
+  | nil => rfl
+  | cons p ps ih =>
+    simp only [List.map_cons, List.mem_cons, not_or] at h
+    rw [copyList, ih _ h.2, Mem.write_other _ _ h.1]
+
+theorem copyList_self (ps : List (Int × Int)) (m : Mem α) (h : ∀ p ∈ ps, p.1 = p.2) : copyList ps m = m := by
+  induction ps generalizing m with
+  | nil => rfl
+  | cons p ps ih =>
+    rw [copyList, h p (by simp), Mem.write_self]
+    exact ih m (fun q hq => h q (List.mem_cons_of_mem _ hq))
+
+/-- copying `g i ↦ f i` over an index list: every destination receives the original source value, nothing else changes -/
+theorem copyList_spec {ι : Type} (L : List ι) (f g : ι → Int) (m : Mem α) (hnd : L.Nodup)
+    (hinj : ∀ i ∈ L, ∀ j ∈ L, f i = f j → i = j) (hdis : ∀ i ∈ L, ∀ j ∈ L, f i ≠ g j) :
+    (∀ i ∈ L, copyList ((L.map f).zip (L.map g)) m (f i) = m (g i)) ∧
+    (∀ a, a ∉ L.map f → copyList ((L.map f).zip (L.map g)) m a = m a) := by
+  constructor
+  · induction L generalizing m with
+    | nil => intro i hi; simp at hi
+    | cons i0 L ih =>
+      have hnd' := List.nodup_cons.mp hnd
+      have ih' := ih (m.write (f i0) (m (g i0))) hnd'.2
+        (fun i hi j hj => hinj i (List.mem_cons_of_mem _ hi) j (List.mem_cons_of_mem _ hj))
+        (fun i hi j hj => hdis i (List.mem_cons_of_mem _ hi) j (List.mem_cons_of_mem _ hj))
+      intro i hi
+      simp only [List.map_cons, List.zip_cons_cons, copyList]
+      rcases List.mem_cons.mp hi with rfl | hi'
+      · rw [copyList_not_mem, Mem.write_same]
+        rw [List.zip_map', List.map_map]
+        intro hc
+        simp only [List.mem_map, Function.comp] at hc
+        obtain ⟨j, hj, hfj⟩ := hc
+        have := hinj j (List.mem_cons_of_mem _ hj) i (by simp) hfj
+        subst this
+        exact hnd'.1 hj
+      · rw [ih' i hi', Mem.write_other]
+        exact fun hc => hdis i0 (by simp) i hi hc.symm
+  · intro a ha
+    apply (copyList_not_mem _ _ _ _).trans rfl
+    rw [List.zip_map', List.map_map]
+    exact ha
+
+/-! ### sequential swap -/
+
+def swapList : List (Int × Int) → Mem α → Mem α
+  | [], m => m
+  | p :: ps, m => swapList ps ((m.write p.1 (m p.2)).write p.2 (m p.1))
+
+theorem swapN_eq (n : Nat) (a b : ElemIt) (m : Mem α) :
+    ElemIt.swapN n a b m = swapList ((ElemIt.addrs n a).zip (ElemIt.addrs n b)) m := by
+  induction n generalizing a b m with
+  | zero => rfl
+  | succ n ih => simp only [ElemIt.swapN, ElemIt.addrs, List.zip_cons_cons, swapList, ih]
+
+theorem swapList_not_mem (ps : List (Int × Int)) (m : Mem α) (a : Int) (h1 : a ∉ ps.map Prod.fst)
+    (h2 : a ∉ ps.map Prod.snd) : swapList ps m a = m a := by
+  induction ps generalizing m with
+  | nil => rfl
+  | cons p ps ih =>
+    simp only [List.map_cons, List.mem_cons, not_or] at h1 h2
+    rw [swapList, ih _ h1.2 h2.2, Mem.write_other _ _ h2.1, Mem.write_other _ _ h1.1]
+
+theorem swapList_spec {ι : Type} (L : List ι) (f g : ι → Int) (m : Mem α) (hnd : L.Nodup)
+    (hf : ∀ i ∈ L, ∀ j ∈ L, f i = f j → i = j) (hg : ∀ i ∈ L, ∀ j ∈ L, g i = g j → i = j)
+    (hdis : ∀ i ∈ L, ∀ j ∈ L, f i ≠ g j) :
+    (∀ i ∈ L, swapList ((L.map f).zip (L.map g)) m (f i) = m (g i) ∧
+              swapList ((L.map f).zip (L.map g)) m (g i) = m (f i)) ∧
+    (∀ a, a ∉ L.map f → a ∉ L.map g → swapList ((L.map f).zip (L.map g)) m a = m a) := by
+  constructor
+  · induction L generalizing m with
+    | nil => intro i hi; simp at hi
+    | cons i0 L ih =>
+      have hnd' := List.nodup_cons.mp hnd
+      have ih' := ih ((m.write (f i0) (m (g i0))).write (g i0) (m (f i0))) hnd'.2
+        (fun i hi j hj => hf i (List.mem_cons_of_mem _ hi) j (List.mem_cons_of_mem _ hj))
+        (fun i hi j hj => hg i (List.mem_cons_of_mem _ hi) j (List.mem_cons_of_mem _ hj))
+        (fun i hi j hj => hdis i (List.mem_cons_of_mem _ hi) j (List.mem_cons_of_mem _ hj))
+      have nf : ∀ j ∈ L, f j ≠ f i0 := fun j hj hc =>
+        hnd'.1 ((hf j (List.mem_cons_of_mem _ hj) i0 (by simp) hc) ▸ hj)
+      have ng : ∀ j ∈ L, g j ≠ g i0 := fun j hj hc =>
+        hnd'.1 ((hg j (List.mem_cons_of_mem _ hj) i0 (by simp) hc) ▸ hj)
+      have d0 : f i0 ≠ g i0 := hdis i0 (by simp) i0 (by simp)
+      intro i hi
+      simp only [List.map_cons, List.zip_cons_cons, swapList]
+      rcases List.mem_cons.mp hi with rfl | hi'
+      · have m1 : f i ∉ (((L.map f).zip (L.map g)).map Prod.fst) := by
+          rw [List.zip_map', List.map_map]; intro hc
+          simp only [List.mem_map, Function.comp] at hc
+          obtain ⟨j, hj, hfj⟩ := hc; exact nf j hj hfj
+        have m2 : f i ∉ (((L.map f).zip (L.map g)).map Prod.snd) := by
+          rw [List.zip_map', List.map_map]; intro hc
+          simp only [List.mem_map, Function.comp] at hc
+          obtain ⟨j, hj, hfj⟩ := hc; exact hdis i (by simp) j (List.mem_cons_of_mem _ hj) hfj.symm
+        have m3 : g i ∉ (((L.map f).zip (L.map g)).map Prod.fst) := by
+          rw [List.zip_map', List.map_map]; intro hc
+          simp only [List.mem_map, Function.comp] at hc
+          obtain ⟨j, hj, hfj⟩ := hc; exact hdis j (List.mem_cons_of_mem _ hj) i (by simp) hfj
+        have m4 : g i ∉ (((L.map f).zip (L.map g)).map Prod.snd) := by
+          rw [List.zip_map', List.map_map]; intro hc
+          simp only [List.mem_map, Function.comp] at hc
+          obtain ⟨j, hj, hfj⟩ := hc; exact ng j hj hfj
+        rw [swapList_not_mem _ _ _ m1 m2, swapList_not_mem _ _ _ m3 m4, Mem.write_other _ _ d0, Mem.write_same,
+          Mem.write_same]
+        exact ⟨rfl, rfl⟩
+      · obtain ⟨e1, e2⟩ := ih' i hi'
+        rw [e1, e2, Mem.write_other _ _ (ng i hi'),
+          Mem.write_other _ _ (fun hc => hdis i0 (by simp) i hi hc.symm),
+          Mem.write_other _ _ (hdis i hi i0 (by simp)), Mem.write_other _ _ (nf i hi')]
+        exact ⟨rfl, rfl⟩
+  · intro a ha hb
+    apply swapList_not_mem
+    · rw [List.zip_map', List.map_map]; exact ha
+    · rw [List.zip_map', List.map_map]; exact hb
+
+/-! ### sequential move -/
+
+def moveList (moved : α) : List (Int × Int) → Mem α → Mem α
+  | [], m => m
+  | p :: ps, m => moveList moved ps ((m.write p.1 (m p.2)).write p.2 moved)
+
+theorem moveN_eq (moved : α) (n : Nat) (s d : ElemIt) (m : Mem α) :
+    ElemIt.moveN moved n s d m = moveList moved ((ElemIt.addrs n d).zip (ElemIt.addrs n s)) m := by
+  induction n generalizing s d m with
+  | zero => rfl
+  | succ n ih => simp only [ElemIt.moveN, ElemIt.addrs, List.zip_cons_cons, moveList, ih]
+
+theorem moveList_not_mem (moved : α) (ps : List (Int × Int)) (m : Mem α) (a : Int) (h1 : a ∉ ps.map Prod.fst)
+    (h2 : a ∉ ps.map Prod.snd) : moveList moved ps m a = m a := by
+  induction ps generalizing m with
+  | nil => rfl
+  | cons p ps ih =>
+    simp only [List.map_cons, List.mem_cons, not_or] at h1 h2
+    rw [moveList, ih _ h1.2 h2.2, Mem.write_other _ _ h2.1, Mem.write_other _ _ h1.1]
+
+theorem moveList_spec {ι : Type} (moved : α) (L : List ι) (f g : ι → Int) (m : Mem α) (hnd : L.Nodup)
+    (hf : ∀ i ∈ L, ∀ j ∈ L, f i = f j → i = j) (hg : ∀ i ∈ L, ∀ j ∈ L, g i = g j → i = j)
+    (hdis : ∀ i ∈ L, ∀ j ∈ L, f i ≠ g j) :
+    (∀ i ∈ L, moveList moved ((L.map f).zip (L.map g)) m (f i) = m (g i) ∧
+              moveList moved ((L.map f).zip (L.map g)) m (g i) = moved) ∧
+    (∀ a, a ∉ L.map f → a ∉ L.map g → moveList moved ((L.map f).zip (L.map g)) m a = m a) := by
+  constructor
+  · induction L generalizing m with
+    | nil => intro i hi; simp at hi
+    | cons i0 L ih =>
+      have hnd' := List.nodup_cons.mp hnd
+      have ih' := ih ((m.write (f i0) (m (g i0))).write (g i0) moved) hnd'.2
+        (fun i hi j hj => hf i (List.mem_cons_of_mem _ hi) j (List.mem_cons_of_mem _ hj))
+        (fun i hi j hj => hg i (List.mem_cons_of_mem _ hi) j (List.mem_cons_of_mem _ hj))
+        (fun i hi j hj => hdis i (List.mem_cons_of_mem _ hi) j (List.mem_cons_of_mem _ hj))
+      have nf : ∀ j ∈ L, f j ≠ f i0 := fun j hj hc =>
+        hnd'.1 ((hf j (List.mem_cons_of_mem _ hj) i0 (by simp) hc) ▸ hj)
+      have ng : ∀ j ∈ L, g j ≠ g i0 := fun j hj hc =>
+        hnd'.1 ((hg j (List.mem_cons_of_mem _ hj) i0 (by simp) hc) ▸ hj)
+      have d0 : f i0 ≠ g i0 := hdis i0 (by simp) i0 (by simp)
+      intro i hi
+      simp only [List.map_cons, List.zip_cons_cons, moveList]
+      rcases List.mem_cons.mp hi with rfl | hi'
+      · have m1 : f i ∉ (((L.map f).zip (L.map g)).map Prod.fst) := by
+          rw [List.zip_map', List.map_map]; intro hc
+          simp only [List.mem_map, Function.comp] at hc
+          obtain ⟨j, hj, hfj⟩ := hc; exact nf j hj hfj
+        have m2 : f i ∉ (((L.map f).zip (L.map g)).map Prod.snd) := by
+          rw [List.zip_map', List.map_map]; intro hc
+          simp only [List.mem_map, Function.comp] at hc
+          obtain ⟨j, hj, hfj⟩ := hc; exact hdis i (by simp) j (List.mem_cons_of_mem _ hj) hfj.symm
+        have m3 : g i ∉ (((L.map f).zip (L.map g)).map Prod.fst) := by
+          rw [List.zip_map', List.map_map]; intro hc
+          simp only [List.mem_map, Function.comp] at hc
+          obtain ⟨j, hj, hfj⟩ := hc; exact hdis j (List.mem_cons_of_mem _ hj) i (by simp) hfj
+        have m4 : g i ∉ (((L.map f).zip (L.map g)).map Prod.snd) := by
+          rw [List.zip_map', List.map_map]; intro hc
+          simp only [List.mem_map, Function.comp] at hc
+          obtain ⟨j, hj, hfj⟩ := hc; exact ng j hj hfj
+        rw [moveList_not_mem _ _ _ _ m1 m2, moveList_not_mem _ _ _ _ m3 m4, Mem.write_other _ _ d0, Mem.write_same,
+          Mem.write_same]
+        exact ⟨rfl, rfl⟩
+      · obtain ⟨e1, e2⟩ := ih' i hi'
+        rw [e1, e2, Mem.write_other _ _ (ng i hi'),
+          Mem.write_other _ _ (fun hc => hdis i0 (by simp) i hi hc.symm)]
+        exact ⟨rfl, rfl⟩
+  · intro a ha hb
+    apply moveList_not_mem
+    · rw [List.zip_map', List.map_map]; exact ha
+    · rw [List.zip_map', List.map_map]; exact hb
+
+/-! ### sequential store of given values -/
+
+def writeList : List (Int × α) → Mem α → Mem α
+  | [], m => m
+  | p :: ps, m => writeList ps (m.write p.1 p.2)
+
+theorem writeList_not_mem (ps : List (Int × α)) (m : Mem α) (a : Int) (h : a ∉ ps.map Prod.fst) :
+    writeList ps m a = m a := by
+  induction ps generalizing m with
+  | nil => rfl
+  | cons p ps ih =>
+    simp only [List.map_cons, List.mem_cons, not_or] at h
+    rw [writeList, ih _ h.2, Mem.write_other _ _ h.1]
+
+/-- distinct addresses: every cell holds the value stored to it -/
+theorem writeList_mem (ps : List (Int × α)) (m : Mem α) (hnd : (ps.map Prod.fst).Nodup) :
+    ∀ p ∈ ps, writeList ps m p.1 = p.2 := by
+  induction ps generalizing m with
+  | nil => intro p hp; simp at hp
+  | cons q ps ih =>
+    simp only [List.map_cons, List.nodup_cons] at hnd
+    intro p hp
+    rw [writeList]
+    rcases List.mem_cons.mp hp with rfl | hp'
+    · rw [writeList_not_mem _ _ _ hnd.1, Mem.write_same]
+    · exact ih _ hnd.2 p hp'
+
+/-- one value everywhere (`fill`): no distinctness needed -/
+theorem writeList_const (ps : List (Int × α)) (m : Mem α) (x : α) (hx : ∀ p ∈ ps, p.2 = x) :
+    ∀ a ∈ ps.map Prod.fst, writeList ps m a = x := by
+  induction ps generalizing m with
+  | nil => intro a ha; simp at ha
+  | cons q ps ih =>
+    intro a ha
+    rw [writeList]
+    by_cases hm : a ∈ ps.map Prod.fst
+    · exact ih _ (fun p hp => hx p (List.mem_cons_of_mem _ hp)) a hm
+    · rw [writeList_not_mem _ _ _ hm]
+      simp only [List.map_cons, List.mem_cons] at ha
+      rcases ha with rfl | ha
+      · rw [Mem.write_same]; exact hx q (by simp)
+      · exact absurd ha hm
+
+theorem ElemIt.storeN_eq (vals : List α) (d : ElemIt) (m : Mem α) :
+    ElemIt.storeN vals d m = writeList ((ElemIt.addrs vals.length d).zip vals) m := by
+  induction vals generalizing d m with
+  | nil => rfl
+  | cons x xs ih => simp only [ElemIt.storeN, List.length_cons, ElemIt.addrs, List.zip_cons_cons, writeList, ih]
+
+/-- the addresses an `array_iterator` visits in `n` steps of `++` (1-D: element addresses; D>1: row bases) -/
+def ArrIt.addrs : Nat → ArrIt → List Int
+  | 0, _ => []
+  | n + 1, it => it.deref.base :: ArrIt.addrs n it.inc
+
+theorem ArrIt.addrs_eq (n : Nat) (it : ArrIt) :
+    ArrIt.addrs n it = (List.range n).map (fun (k : Nat) => it.ptr + Int.ofNat k * it.stride) := by
+  induction n generalizing it with
+  | zero => rfl
+  | succ n ih =>
+    rw [ArrIt.addrs, ih, List.range_succ_eq_map, List.map_cons, List.map_map]
+    congr 1
+    · simp [ArrIt.deref]
+    · apply List.map_congr_left
+      intro k _
+      simp only [ArrIt.inc, Function.comp, Int.ofNat_eq_natCast, Nat.succ_eq_add_one, Int.natCast_add, Int.add_mul]
+      omega
+
+theorem ArrIt.fillN_eq (x : α) (n : Nat) (it : ArrIt) (m : Mem α) :
+    ArrIt.fillN x n it m = writeList ((ArrIt.addrs n it).map (fun a => (a, x))) m := by
+  induction n generalizing it m with
+  | zero => rfl
+  | succ n ih => simp only [ArrIt.fillN, ArrIt.addrs, List.map_cons, writeList, ih]
+
+theorem ArrIt.storeN_eq (vals : List α) (it : ArrIt) (m : Mem α) :
+    ArrIt.storeN vals it m = writeList ((ArrIt.addrs vals.length it).zip vals) m := by
+  induction vals generalizing it m with
+  | nil => rfl
+  | cons x xs ih => simp only [ArrIt.storeN, List.length_cons, ArrIt.addrs, List.zip_cons_cons, writeList, ih]
+
+/-! ### reading and comparing -/
+
+theorem readN_eq (m : Mem α) (n : Nat) (it : ElemIt) : ElemIt.readN m n it = (ElemIt.addrs n it).map m := by
+  induction n generalizing it with
+  | zero => rfl
+  | succ n ih => simp only [ElemIt.readN, ElemIt.addrs, List.map_cons, ih]
+
+theorem equalN_iff [DecidableEq α] (m : Mem α) (n : Nat) (a b : ElemIt) :
+    ElemIt.equalN m n a b = true ↔ ∀ p ∈ (ElemIt.addrs n a).zip (ElemIt.addrs n b), m p.1 = m p.2 := by
+  induction n generalizing a b with
+  | zero => simp [ElemIt.equalN, ElemIt.addrs]
+  | succ n ih =>
+    simp only [ElemIt.equalN, ElemIt.addrs, List.zip_cons_cons, List.mem_cons]
+    by_cases h : m a.current = m b.current
+    · simp only [h, if_true, ih]
+      constructor
+      · intro hh p hp
+        rcases hp with rfl | hp
+        · exact h
+        · exact hh p hp
+      · intro hh p hp; exact hh p (Or.inr hp)
+    · simp only [h, if_false, Bool.false_eq_true, false_iff]
+      intro hh; exact h (hh (a.current, b.current) (Or.inl rfl))
+
+/-- index-list form of `equalN_iff` -/
+theorem equalN_map_iff [DecidableEq α] {ι : Type} (m : Mem α) (n : Nat) (a b : ElemIt) (L : List ι) (f g : ι → Int)
+    (ha : ElemIt.addrs n a = L.map f) (hb : ElemIt.addrs n b = L.map g) :
+    ElemIt.equalN m n a b = true ↔ ∀ i ∈ L, m (f i) = m (g i) := by
+  rw [equalN_iff, ha, hb, List.zip_map']
+  simp only [List.mem_map]
+  constructor
+  · intro h i hi; exact h (f i, g i) ⟨i, hi, rfl⟩
+  · rintro h p ⟨i, hi, rfl⟩; exact h i hi
+
+/-! ### flat loops over element pointers -/
+
+theorem copyFlat_spec (n : Nat) (s d : Int) (m : Mem α) (hdis : d + n ≤ s ∨ s + n ≤ d) :
+    (∀ k : Int, 0 ≤ k → k < n → copyFlat n s d m (d + k) = m (s + k)) ∧
+    (∀ a : Int, a < d ∨ d + n ≤ a → copyFlat n s d m a = m a) := by
+  induction n generalizing s d m with
+  | zero =>
+    constructor
+    · intro k h0 h1; omega
+    · intro a _; rfl
+  | succ n ih =>
+    obtain ⟨i1, i2⟩ := ih (s + 1) (d + 1) (m.write d (m s)) (by omega)
+    constructor
+    · intro k h0 h1
+      rw [copyFlat]
+      by_cases hk : k = 0
+      · subst hk
+        rw [i2 _ (by omega)]
+        simp [Mem.write_same]
+      · have := i1 (k - 1) (by omega) (by omega)
+        have e1 : d + 1 + (k - 1) = d + k := by omega
+        have e2 : s + 1 + (k - 1) = s + k := by omega
+        rw [e1, e2] at this
+        rw [this, Mem.write_other]
+        omega
+    · intro a ha
+      rw [copyFlat, i2 a (by omega), Mem.write_other]
+      omega
+
+theorem equalFlat_iff [DecidableEq α] (m : Mem α) (n : Nat) (a b : Int) :
+    equalFlat m n a b = true ↔ ∀ k : Int, 0 ≤ k → k < n → m (a + k) = m (b + k) := by
+  induction n generalizing a b with
+  | zero => simp only [equalFlat, true_iff]; intro k h0 h1; omega
+  | succ n ih =>
+    simp only [equalFlat]
+    by_cases h : m a = m b
+    · simp only [h, if_true, ih]
+      constructor
+      · intro hh k h0 h1
+        by_cases hk : k = 0
+        · subst hk; simpa using h
+        · have := hh (k - 1) (by omega) (by omega)
+          have e1 : a + 1 + (k - 1) = a + k := by omega
+          have e2 : b + 1 + (k - 1) = b + k := by omega
+          rwa [e1, e2] at this
+      · intro hh k h0 h1
+        have := hh (k + 1) (by omega) (by omega)
+        have e1 : a + 1 + k = a + (k + 1) := by omega
+        have e2 : b + 1 + k = b + (k + 1) := by omega
+        rwa [e1, e2]
+    · simp only [h, if_false, Bool.false_eq_true, false_iff]
+      intro hh; apply h; simpa using hh 0 (by omega) (by omega)
+
+
+-- VIEWLEVEL
+
 end Multi
